@@ -289,6 +289,8 @@ def backup_event_files(d, ops, tr, ib, inside, at):
             pre += ev(i)
         elif ib < i <= ib + inside:
             ins += ev(i)
+    if at == -1:            # released before the stage-2 checkpoint: part of what that checkpoint flushes
+        pre += ins
     open(os.path.join(d, "events"), "w").write("\n".join(pre) + "\n")
     open(os.path.join(d, "eventsM"), "w").write("\n".join(ins if at >= 1 else []) + "\n")
     open(os.path.join(d, "eventsA"), "w").write("\n".join(ins if at == 0 else []) + "\n")
